@@ -341,3 +341,21 @@ def rearm_respects_never(ctx, R, prog):
     hit = [q for p, q, e, pol in rl.edges_with_fact(g, lambda e, pol: isinstance(e, int) and rl.establishes(g, e, pol, "==", lambda j: g.cv(j) is None, rl.is_const(g, lambda v: v == never)))]
     ok2 = bool(cas) and bool(hit) and not any(g.cfg.pt(c) in g.cfg.reach([q]) for q in hit for c in cas)
     ctx.check(R, ok2, g.where(), "_mi_page_try_use_delayed_free leaves the flag alone on the `old == MI_NEVER_DELAYED_FREE` edge (no CAS reachable from it)", key=R + ":never_test")
+
+
+def arena_commit_whole_range(ctx, R, prog):
+    """C07.R3 / C13.R5: a claimed arena range that is not fully committed is committed as a whole"""
+    h = prog.fn("mi_arena_try_alloc_at")
+    # the commit covers the whole claimed range: the committed-bitmap says which blocks were committed *somewhere* in the range, not
+    # that they form a prefix, so a commit of anything less than [p, p + block_size(count)) may leave a hole that is then handed out
+    commits = [c for c in h.calls(("_mi_os_commit", "_mi_os_commit_ex"))]
+    claims2 = [c for c in h.calls("_mi_bitmap_claim_across") if h.mentions_field(rl.arg(h, c, 0), "blocks_committed")]
+    for c in commits:
+        start = rl.canon(h, rl.arg(h, c, 0))
+        size = rl.canon(h, rl.arg(h, c, 1)).replace(" ", "")
+        ps = [dd for _, dd in rl.var_init_from(h, lambda j: rl.is_call(h, j, "mi_arena_block_start"))]
+        cnt = rl.canon(h, rl.arg(h, claims2[0], 2)).replace(" ", "") if claims2 else "?"
+        ok_start = bool(ps) and rl.var_of(h, rl.arg(h, c, 0)) == ps[0]["d"]
+        ok_size = size == "mi_arena_block_size(%s)" % cnt
+        ctx.check(R, ok_start and ok_size, h.where(c), "the commit covers the whole claimed range: (%s, %s) should be (block start, mi_arena_block_size(%s))" % (start, size, cnt),
+                  key=R + ":mi_arena_try_alloc_at:range")
